@@ -26,6 +26,9 @@ type GenOpts struct {
 	NoFloat     bool // avoid fn:avg (float results)
 	NoCollect   bool
 	NoOrderCmp  bool // no <, <=, >, >= (C15: outside post-hoc provenance)
+	NegAnywhere bool // negated atoms may be written before the atoms that bind their variables
+	NonLinear   bool // bias recursive rules towards several same-group atoms in one body
+	IDBFacts    bool // some derived predicates also have base facts written in the program
 	AggBias     bool // C02: most rules aggregate, several aggregating rules per head
 }
 
@@ -42,6 +45,9 @@ func DrawOpts(r *simrt.Run) GenOpts {
 	o.Lets = r.Bool("gen.f.let")
 	o.Strings = r.Bool("gen.f.str")
 	o.NegWildcard = r.Bool("gen.f.negwild")
+	o.NegAnywhere = r.Bool("gen.f.neganywhere")
+	o.NonLinear = r.Bool("gen.f.nonlinear")
+	o.IDBFacts = r.Bool("gen.f.idbfacts")
 	return o
 }
 
@@ -194,6 +200,29 @@ func GenProgram(r *simrt.Run, o GenOpts) *Program {
 		}
 		g.p.Preds = append(g.p.Preds, PredInfo{Name: fmt.Sprintf("p%d", i), Cols: cols, Group: group})
 	}
+	// base facts for derived predicates (a predicate may have rules and facts)
+	if o.IDBFacts {
+		for i := nEDB; i < len(g.p.Preds); i++ {
+			pi := g.p.Preds[i]
+			hasSet := false
+			for _, c := range pi.Cols {
+				if c.IsSet() || c == TFloat {
+					hasSet = true
+				}
+			}
+			if hasSet || !r.OneIn(3, "gen.idbfact?") {
+				continue
+			}
+			n := 1 + r.Choose(2, "gen.idbfact.n")
+			for f := 0; f < n; f++ {
+				var args []Val
+				for _, t := range pi.Cols {
+					args = append(args, g.constOf(t))
+				}
+				g.p.Facts = append(g.p.Facts, Fact{Pred: pi.Name, Args: args})
+			}
+		}
+	}
 	// rules
 	for i := nEDB; i < len(g.p.Preds); i++ {
 		pi := g.p.Preds[i]
@@ -273,11 +302,14 @@ func (g *gen) genRule(h PredInfo, k int) Rule {
 		}
 	}
 	nBody := 1 + r.Choose(3, "gen.nbody")
+	if o.NonLinear && rec && k > 0 && nBody < 2 {
+		nBody = 2
+	}
 	var body []Lit
 	usesSame := false
 	for b := 0; b < nBody; b++ {
 		var q PredInfo
-		if len(same) > 0 && k > 0 && r.Bool("gen.body.same") {
+		if len(same) > 0 && k > 0 && (r.Bool("gen.body.same") || (o.NonLinear && b < 2)) {
 			q = same[r.Choose(len(same), "gen.body.samepred")]
 			usesSame = true
 		} else {
@@ -286,6 +318,9 @@ func (g *gen) genRule(h PredInfo, k int) Rule {
 		var args []Expr
 		for _, t := range q.Cols {
 			c := r.Choose(10, "gen.arg.kind")
+			if t.IsSet() && c == 8 {
+				c = 7 // no list constants against set-valued columns (element order is unspecified)
+			}
 			switch {
 			case c < 5:
 				if v, ok := g.pickVar(env, t, "gen.arg.var"); ok {
@@ -437,6 +472,21 @@ func (g *gen) genRule(h PredInfo, k int) Rule {
 						env.byType[TStr] = append(env.byType[TStr], y)
 					}
 				}
+			}
+		}
+	}
+	if o.NegAnywhere {
+		// move negated atoms to drawn positions: analysis is expected to delay
+		// them until their variables are bound
+		for i := range body {
+			if body[i].K != LNeg {
+				continue
+			}
+			j := r.Choose(i+1, "gen.neg.position")
+			if j < i {
+				l := body[i]
+				copy(body[j+1:i+1], body[j:i])
+				body[j] = l
 			}
 		}
 	}
